@@ -70,6 +70,11 @@ class Run:
     def check_escapes(self, clause: str) -> None:
         """Exceptions that left a protocol callback or a loop callback."""
         for e in self.net.protocol_escapes:
+            if e["type"] == "SimHang":
+                # the harness watchdog interrupted code that did not return (signature without the function: it is whatever
+                # frame the timer happened to hit)
+                self.violate(clause, "hang-in-receive-callback", f"{e['where']}: {e['func']}() {e['msg']}")
+                continue
             self.violate(clause, f"{e['type']}@{e['func']}", f"{e['where']}: {e['msg']} ({e['file']})")
         for e in self.loop.escapes:
             exc = e.get("exception")
